@@ -344,6 +344,13 @@ fn run_program(defs: &Defs, len: usize, shape: Shape, ops: &[Value], merged: boo
                     w.set_wraps(op["b"].as_bool().unwrap_or(true));
                     flags.push(true)
                 }
+                "fmt" => {
+                    // put_fmt: optional face for the duration of the call, text through utf8_writer()
+                    let text: String = vusizes(&op["s"]).iter().filter_map(|c| char::from_u32(*c as u32)).collect();
+                    let face = if op["face"].is_object() { Some(face_from(&op["face"])) } else { None };
+                    w.put_fmt(&text, face);
+                    flags.extend([true, true, true]);
+                }
                 "write" => {
                     let mut chunks: Vec<Vec<u8>> = op["chunks"].as_array().map(|a| a.iter().map(vbytes).collect()).unwrap_or_default();
                     if merged {
@@ -392,6 +399,14 @@ fn run_program(defs: &Defs, len: usize, shape: Shape, ops: &[Value], merged: boo
 
 fn op_coq(defs: &Defs, op: &Value) -> String {
     match op["o"].as_str().unwrap_or("") {
+        "fmt" => {
+            // modelled as: set_face(face) (or a no-op), one write of the UTF-8 bytes through utf8_writer(),
+            // set_face(previous face); "cur" is the writer's face before the call as tracked by ops_coq
+            let text: String = vusizes(&op["s"]).iter().filter_map(|c| char::from_u32(*c as u32)).collect();
+            let cur = face_from(&op["cur"]);
+            let during = if op["face"].is_object() { face_from(&op["face"]) } else { cur };
+            format!("(OFace {}); (OWriteU [{}]); (OFace {})", face_coq(&during), cbytes(text.as_bytes()), face_coq(&cur))
+        }
         "char" => format!("(OChar {})", op["c"].as_u64().unwrap_or(63)),
         "cell" => format!("(OCell {})", defs.cell_coq(&defs.cell_from(op))),
         "face" => format!("(OFace {})", face_coq(&face_from(&op["face"]))),
@@ -417,7 +432,7 @@ fn chars_of(input: &Value, out: &mut Vec<u32>) {
             for (k, v) in m {
                 match k.as_str() {
                     "c" | "ch" => out.extend(v.as_u64().map(|x| x as u32)),
-                    "fb" => out.extend(vusizes(v).iter().map(|x| *x as u32)),
+                    "fb" | "s" => out.extend(vusizes(v).iter().map(|x| *x as u32)),
                     "chunks" => {
                         let bytes: Vec<u8> = v.as_array().map(|a| a.iter().flat_map(vbytes).collect()).unwrap_or_default();
                         decode_lenient(&bytes, out);
@@ -584,6 +599,17 @@ fn run_w(input: &Value) -> Case {
         // recorded as skipped: the empty program is run instead
         ops.clear();
     }
+    {
+        let mut cur = json!({"fg": null, "bg": null, "attrs": 0});
+        for o in ops.iter_mut() {
+            if o["o"] == "face" {
+                cur = o["face"].clone();
+            }
+            if o["o"] == "fmt" {
+                o["cur"] = cur.clone();
+            }
+        }
+    }
     let (r1, r2) = {
         let d = &defs;
         let o = &ops;
@@ -604,6 +630,8 @@ fn run_w(input: &Value) -> Case {
         sgr_table(&ops),
         clist(ops.iter().map(|o| op_coq(&defs, o)))
     );
+    let fmt_with_tty = ops.iter().any(|o| o["o"] == "fmt") && ops.iter().any(|o| o["via"].as_str() == Some("tty"));
+    assert!(!fmt_with_tty, "generator invariant: fmt is not mixed with tty writes (the face before fmt must be known statically)");
     let mut j = input.clone();
     let res = |r: &Option<WOut>| match r {
         Some(o) if api_same => format!(
@@ -647,11 +675,25 @@ struct TOut {
 }
 
 fn run_text(defs: &Defs, input: &Value, text: &Text) -> TOut {
+    // "str": the same characters as a plain string view (impl View for str) instead of a Text
+    let as_str: Option<String> = if input["str"].as_bool().unwrap_or(false) {
+        Some(
+            input["cells"]
+                .as_array()
+                .map(|a| a.iter().filter_map(|c| c["kind"]["ch"].as_u64().and_then(|x| char::from_u32(x as u32))).collect())
+                .unwrap_or_default(),
+        )
+    } else {
+        None
+    };
     let g = |k: &str, d: u64| input[k].as_u64().unwrap_or(d) as usize;
     let ct = vusizes(&input["ct"]);
     let ct = BoxConstraint::new(Size::new(ct[0], ct[1]), Size::new(ct[2], ct[3]));
     let mut store = ViewLayoutStore::new();
-    let layout = text.layout_new(&defs.ctx, ct, &mut store).expect("layout");
+    let layout = match &as_str {
+        Some(s) => s.as_str().layout_new(&defs.ctx, ct, &mut store).expect("layout"),
+        None => text.layout_new(&defs.ctx, ct, &mut store).expect("layout"),
+    };
     let size = layout.size();
     // canvas and view derived from the reported size: padding around, optional slack, optional transposition
     let pad = vusizes(&input["pad"]);
@@ -673,7 +715,10 @@ fn run_text(defs: &Defs, input: &Value, text: &Text) -> TOut {
     let mut data = canvas(hh * ww);
     {
         let surf = SurfaceMutView::new(shape, &mut data[..]);
-        text.render(&defs.ctx, surf, layout.view()).expect("render");
+        match &as_str {
+            Some(s) => s.as_str().render(&defs.ctx, surf, layout.view()).expect("render"),
+            None => text.render(&defs.ctx, surf, layout.view()).expect("render"),
+        }
     }
     let mut nums = vec![];
     for c in &data {
@@ -752,6 +797,7 @@ fn run_t(input: &Value) -> Case {
         format!("glyphs={}", input["glyphs"].as_bool().unwrap_or(true)),
         format!("view={}", if input["transposed"].as_bool().unwrap_or(false) { "transposed" } else { "offset" }),
         format!("maxw={}", ct[3].min(13)),
+        format!("str_view={}", input["str"].as_bool().unwrap_or(false)),
         format!("area={}", if area == 0 { "0" } else if area < 4 { "1-3" } else { "4+" }),
     ];
     Case { coq, json: j, tags, nontrivial }
@@ -960,10 +1006,10 @@ fn gen_w(rng: &mut Rng, v: &mut Vec<Value>) {
     let glyphs = rng.chance(1, 2);
     let tty_case = rng.chance(2, 5);
     let base = |ops: Vec<Value>| json!({"k": "w", "H": h, "W": w, "len": len, "vops": vops, "shape": shape, "glyphs": glyphs, "glyph_defs": gd, "image_defs": id, "ops": ops});
-    if rng.chance(1, 6) {
+    if rng.chance(1, 12) {
         // every partition of a short byte string, as a family of cases
         let mut b = if tty_case { gen_tty_bytes(rng, 2) } else { gen_bytes(rng, 3) };
-        b.truncate(if tty_case { 7 } else { 6 });
+        b.truncate(6);
         let pre: Vec<Value> = if rng.chance(1, 2) { vec![json!({"o": "face", "face": gen_face_plain_underline(rng)})] } else { vec![] };
         let via = if tty_case { "tty" } else if rng.chance(1, 3) { "utf8" } else { "writer" };
         let n = b.len();
@@ -994,6 +1040,11 @@ fn gen_w(rng: &mut Rng, v: &mut Vec<Value>) {
                 c
             }
             6 => json!({"o": "face", "face": if tty_case { gen_face_plain_underline(rng) } else { gen_face(rng) }}),
+            8 if !tty_case => {
+                let n = rng.below(6) as usize;
+                let chars: Vec<u32> = (0..n).map(|_| gen_char(rng, true)).collect();
+                json!({"o": "fmt", "s": chars, "face": if rng.chance(1, 2) { gen_face(rng) } else { Value::Null }})
+            }
             7 => json!({"o": "wraps", "b": rng.chance(1, 2)}),
             _ if tty_case && rng.chance(2, 3) => {
                 let b = gen_tty_bytes(rng, 6);
@@ -1024,13 +1075,28 @@ fn gen_t(rng: &mut Rng, v: &mut Vec<Value>) {
             c
         })
         .collect();
+    let is_str = rng.chance(1, 6);
+    let cells: Vec<Value> = if is_str {
+        cells
+            .into_iter()
+            .map(|mut c| {
+                if c["kind"]["t"] != "c" {
+                    c["kind"] = json!({"t": "c", "ch": gen_char(rng, true)});
+                }
+                c["face"] = json!({"fg": null, "bg": null, "attrs": 0});
+                c
+            })
+            .collect()
+    } else {
+        cells
+    };
     let maxw = 1 + rng.below(12) as usize;
     let maxh = if rng.chance(1, 8) { rng.below(4) as usize } else { 60 };
     let minw = if rng.chance(1, 4) { rng.below(maxw as u64 + 1) as usize } else { 0 };
     let minh = if rng.chance(1, 6) { rng.below(maxh.min(5) as u64 + 1) as usize } else { 0 };
     let pad: Vec<usize> = (0..4).map(|_| rng.below(3) as usize).collect();
     v.push(json!({"k": "t", "glyphs": rng.chance(1, 2), "glyph_defs": gd, "image_defs": id, "cells": cells,
-        "wraps": rng.chance(2, 3), "ct": [minh, minw, maxh, maxw], "pad": pad,
+        "str": is_str, "wraps": is_str || rng.chance(2, 3), "ct": [minh, minw, maxh, maxw], "pad": pad,
         "eh": if rng.chance(1, 4) { rng.below(3) } else { 0 }, "ew": if rng.chance(1, 4) { rng.below(3) } else { 0 },
         "transposed": rng.chance(1, 3)}));
 }
@@ -1038,7 +1104,7 @@ fn gen_t(rng: &mut Rng, v: &mut Vec<Value>) {
 pub fn generate(rng: &mut Rng, n: usize, _tier: &str) -> Vec<Value> {
     let mut v = vec![];
     while v.len() < n {
-        if rng.chance(2, 5) {
+        if rng.chance(1, 2) {
             gen_t(rng, &mut v);
         } else {
             gen_w(rng, &mut v);
